@@ -8,6 +8,8 @@ OUTSIDE = ('dispenso code outside the listed kernels; stale reads / reorderings 
            '(the explored interleavings are sequentially consistent); plain accesses other than payload accesses')
 SEQ = {'engine': 'cbmc-seq', 'spin_loops': True, 'rt_defs': {'VF_RACE': 1}, 'timeout': 1500}
 INSTANCES = [
+    dict(SEQ, name='spsc', src='spsc_race.cpp', nthreads=2, steps=3, unwind=3,
+         bounds='SPSCRingBuffer<probe,1> (2 slots): producer 3 emplaces, consumer 2 pops, drain by main; 3 rounds'),
     dict(SEQ, name='mpmc', src='mpmc_race.cpp', nthreads=4, steps=3, unwind=3,
          bounds='MpmcRingBuffer<probe,2>: producers 2+1 emplaces, consumer 2 pops, drain by main; 3 rounds'),
 ]
